@@ -45,37 +45,72 @@ theorem selectNext_none (cfg : Cfg) (tried methods : List String) :
   · intro h a ha
     rcases h a ha with h | h <;> simp [h]
 
-/-- what `afterAuth` hands to the next iteration: the method it picked is listed in the method list
-    now in force (the server's latest, or the previous one if this call produced none) and is not
-    among the failed ones; that list and the failed ones are what the next segment records -/
+/-- what `afterAuth` hands to the next iteration: the method it picked is either the first configured
+    method listed in the method list now in force (the server's latest, or the previous one if this
+    call produced none) and not among the failed ones, or the method the scripted AuthCallback returned
+    on this invocation; that list and the failed ones are what the next segment records -/
 theorem afterAuth_next {cfg : Cfg} {st st' : LoopSt} {name : String} {r : AuthOut} {a : Method}
-    (h : afterAuth cfg st name r = .inr (st', a)) :
-    a ∈ cfg.auth ∧ a.name ∈ st'.lastMethods ∧ a.name ∉ st'.tried ∧
+    (h : (afterAuth cfg st name r).next = .inr (st', a)) :
+    ((a ∈ cfg.auth ∧ a.name ∈ st'.lastMethods ∧ a.name ∉ st'.tried) ∨
+      (∃ ds, cfg.authCb = some ds ∧ ds[st.cbCalls]? = some (.use a))) ∧
     st'.lastMethods = r.methods.getD st.lastMethods ∧
     st'.tried.length + st'.partialOk.length = st.tried.length + st.partialOk.length + 1 ∧
     st'.tried.length + st'.partialOk.length ≤ 64 ∧
-    ¬ (r.res = .success ∧ r.err = none) ∧ r.err ≠ some .disconnect := by
-  unfold afterAuth at h
+    ¬ (r.res = .success ∧ r.err = none) ∧ r.err ≠ some .disconnect ∧
+    (∀ x, (afterAuth cfg st name r).cbCtx = some x → x.1 = st'.lastMethods ∧ x.2.2 = st'.tried ∧ x.2.1 = st'.partialOk) ∧
+    st'.pkCalls = st.pkCalls := by
+  unfold afterAuth at h ⊢
   by_cases hd : r.err = some .disconnect
   · simp [hd] at h
   by_cases hs : effRes r = .success
   · simp [hd, hs] at h
-  simp only [beq_iff_eq, hd, hs, if_false] at h
+  simp only [beq_iff_eq, hd, hs, if_false] at h ⊢
   by_cases hlen : (record st name (effRes r)).partialOk.length + (record st name (effRes r)).tried.length > 64
   · simp [hlen] at h
-  simp only [hlen, if_false] at h
-  cases hsel : selectNext cfg (record st name (effRes r)).tried (r.methods.getD st.lastMethods) with
-  | none => simp [hsel] at h
-  | some b =>
-    simp [hsel] at h
-    obtain ⟨rfl, rfl⟩ := h
-    obtain ⟨pre, post, hc, h1, h2, _⟩ := (selectNext_spec _ _ _ _).mp hsel
-    have hrec : (record st name (effRes r)).tried.length + (record st name (effRes r)).partialOk.length =
-        st.tried.length + st.partialOk.length + 1 := by
-      unfold record; split <;> simp <;> omega
-    refine ⟨by simp [hc], h2, h1, rfl, hrec, by simp at hlen ⊢; omega, ?_, hd⟩
+  simp only [hlen, if_false] at h ⊢
+  have hrec : (record st name (effRes r)).tried.length + (record st name (effRes r)).partialOk.length =
+      st.tried.length + st.partialOk.length + 1 := by
+    unfold record; split <;> simp <;> omega
+  have hpk : (record st name (effRes r)).pkCalls = st.pkCalls := by unfold record; split <;> rfl
+  have hns : ¬ (r.res = .success ∧ r.err = none) := by
     rintro ⟨h3, h4⟩
     exact hs (by simp [effRes, h3, h4])
+  have scan : ∀ (stx : LoopSt), stx.tried = (record st name (effRes r)).tried →
+      pickNext cfg stx (r.methods.getD st.lastMethods) = .inr (st', a) →
+      st' = stx ∧ a ∈ cfg.auth ∧ a.name ∈ r.methods.getD st.lastMethods ∧ a.name ∉ stx.tried := by
+    intro stx htr hp
+    unfold pickNext at hp
+    cases hsel : selectNext cfg stx.tried (r.methods.getD st.lastMethods) with
+    | none => simp [hsel] at hp
+    | some b =>
+      simp [hsel] at hp
+      obtain ⟨rfl, rfl⟩ := hp
+      obtain ⟨pre, post, hc, h1, h2, _⟩ := (selectNext_spec _ _ _ _).mp hsel
+      exact ⟨rfl, by simp [hc], h2, h1⟩
+  cases hcb : cfg.authCb with
+  | none =>
+    simp only [hcb] at h ⊢
+    obtain ⟨rfl, a1, a2, a3⟩ := scan
+      { record st name (effRes r) with lastMethods := r.methods.getD st.lastMethods } rfl h
+    exact ⟨Or.inl ⟨a1, a2, a3⟩, rfl, hrec, by simp at hlen ⊢; omega, hns, hd, by simp, hpk⟩
+  | some ds =>
+    simp only [hcb] at h ⊢
+    cases hdec : ds[st.cbCalls]?.getD .next with
+    | fail => simp [hdec] at h
+    | use m =>
+      simp only [hdec] at h ⊢
+      simp at h
+      obtain ⟨rfl, rfl⟩ := h
+      refine ⟨Or.inr ⟨ds, rfl, ?_⟩, rfl, hrec, by simp at hlen ⊢; omega, hns, hd, by simp, hpk⟩
+      cases hq : ds[st.cbCalls]? with
+      | none => simp [hq] at hdec
+      | some d => simp [hq] at hdec; rw [hdec]
+    | next =>
+      simp only [hdec] at h ⊢
+      obtain ⟨rfl, a1, a2, a3⟩ := scan
+        { record st name (effRes r) with lastMethods := r.methods.getD st.lastMethods,
+                                         cbCalls := (record st name (effRes r)).cbCalls + 1 } rfl h
+      exact ⟨Or.inl ⟨a1, a2, a3⟩, rfl, hrec, by simp at hlen ⊢; omega, hns, hd, by simp, hpk⟩
 
 /-! ## the main loop as a chain of segments -/
 
@@ -83,17 +118,35 @@ theorem afterAuth_next {cfg : Cfg} {st st' : LoopSt} {name : String} {r : AuthOu
 def Link (cfg : Cfg) (s1 s2 : Seg) : Prop :=
   -- the method list in force is the server's latest (or stays if this call produced none)
   s2.allowed = s1.out.methods.getD s1.allowed ∧
-  -- only listed, not yet failed, configured methods are attempted
-  s2.method ∈ s2.allowed ∧ s2.method ∉ s2.tried ∧ (∃ a ∈ cfg.auth, a.name = s2.method) ∧
+  -- only listed, not yet failed, configured methods are attempted — unless AuthCallback chose the method
+  ((s2.method ∈ s2.allowed ∧ s2.method ∉ s2.tried ∧ (∃ a ∈ cfg.auth, a.name = s2.method)) ∨
+    (∃ (ds : List CbDecision) (k : Nat) (m : Method), cfg.authCb = some ds ∧ ds[k]? = some (CbDecision.use m) ∧ m.name = s2.method)) ∧
   -- nothing follows a success or a disconnect
   ¬ (s1.out.res = .success ∧ s1.out.err = none) ∧ s1.out.err ≠ some .disconnect ∧
-  -- the call is read from where the previous one stopped
-  True
+  -- AuthCallback, when set, was shown exactly the list in force and the failed methods
+  (∀ x, s1.cbCtx = some x → x.1 = s2.allowed ∧ x.2.2 = s2.tried)
 
 def Adj {α : Type} (R : α → α → Prop) : List α → Prop
   | [] => True
   | [_] => True
   | a :: b :: rest => R a b ∧ Adj R (b :: rest)
+
+/-- the segment one iteration appends -/
+def segOf (cfg : Cfg) (sa : Option String) (st : LoopSt) (m : Option Method) (script : List Srv) : Seg :=
+  ⟨nameOf m, st.lastMethods, st.tried, (callAuth cfg sa m script st.pkCalls).1, (callAuth cfg sa m script st.pkCalls).2.2,
+    (afterAuth cfg { st with pkCalls := (callAuth cfg sa m script st.pkCalls).2.1 } (nameOf m)
+      (callAuth cfg sa m script st.pkCalls).1).cbCtx⟩
+
+theorem mainLoop_succ (cfg : Cfg) (sa : Option String) (fuel : Nat) (st : LoopSt) (m : Option Method)
+    (script : List Srv) (segs : List Seg) :
+    mainLoop cfg sa (fuel + 1) st m script segs =
+      match (afterAuth cfg { st with pkCalls := (callAuth cfg sa m script st.pkCalls).2.1 } (nameOf m)
+          (callAuth cfg sa m script st.pkCalls).1).next with
+      | .inl res => (segs ++ [segOf cfg sa st m script], res)
+      | .inr (st', nx) => mainLoop cfg sa fuel st' (some nx) (callAuth cfg sa m script st.pkCalls).1.rest
+          (segs ++ [segOf cfg sa st m script]) := by
+  rw [mainLoop]
+  rfl
 
 theorem mainLoop_chain (cfg : Cfg) (sa : Option String) :
     ∀ (fuel : Nat) (st : LoopSt) (m : Option Method) (script : List Srv) (segs out : List Seg) (res : Result),
@@ -108,33 +161,45 @@ theorem mainLoop_chain (cfg : Cfg) (sa : Option String) :
     exact ⟨[], by simp [h.1], trivial, by simp, by simp⟩
   | succ fuel ih =>
     intro st m script segs out res h
-    simp only [mainLoop] at h
-    generalize callAuth cfg sa m script = r at h
-    cases ha : afterAuth cfg st (nameOf m) r with
+    rw [mainLoop_succ] at h
+    generalize hseg : segOf cfg sa st m script = seg at h
+    have hs1 : seg.method = nameOf m ∧ seg.allowed = st.lastMethods ∧ seg.tried = st.tried := by
+      rw [← hseg]; exact ⟨rfl, rfl, rfl⟩
+    cases ha : (afterAuth cfg { st with pkCalls := (callAuth cfg sa m script st.pkCalls).2.1 } (nameOf m)
+        (callAuth cfg sa m script st.pkCalls).1).next with
     | inl res' =>
       simp [ha] at h
-      refine ⟨[⟨nameOf m, st.lastMethods, st.tried, r⟩], by simp [h.1], trivial, by simp, ?_⟩
+      refine ⟨[seg], by simp [h.1], trivial, by simp, ?_⟩
       intro s more hs
       simp at hs
-      simp [← hs.1]
+      rw [← hs.1]; exact hs1
     | inr p =>
       obtain ⟨st', a⟩ := p
       simp [ha] at h
-      obtain ⟨extra, he, hadj, hlen, hfirst⟩ := ih st' (some a) r.rest _ out res h
-      obtain ⟨n1, n2, n3, n4, _, _, n7, n8⟩ := afterAuth_next ha
-      refine ⟨⟨nameOf m, st.lastMethods, st.tried, r⟩ :: extra, by simp [he], ?_, by simp; omega, ?_⟩
+      obtain ⟨extra, he, hadj, hlen, hfirst⟩ := ih st' (some a) _ _ out res h
+      obtain ⟨n1, n2, _, _, n5, n6, n7, _⟩ := afterAuth_next ha
+      refine ⟨seg :: extra, by simp [he], ?_, by simp; omega, ?_⟩
       · cases extra with
         | nil => trivial
         | cons s more =>
           obtain ⟨f1, f2, f3⟩ := hfirst s more rfl
-          refine ⟨⟨?_, ?_, ?_, ⟨a, n1, ?_⟩, n7, n8, trivial⟩, hadj⟩
-          · simp [f2, n4]
-          · rw [f1, f2]; exact n2
-          · rw [f1, f3]; exact n3
-          · rw [f1]; rfl
+          have hout : seg.out = (callAuth cfg sa m script st.pkCalls).1 := by rw [← hseg]; rfl
+          have hctx : seg.cbCtx = (afterAuth cfg { st with pkCalls := (callAuth cfg sa m script st.pkCalls).2.1 } (nameOf m)
+              (callAuth cfg sa m script st.pkCalls).1).cbCtx := by rw [← hseg]; rfl
+          refine ⟨⟨?_, ?_, by rw [hout]; exact n5, by rw [hout]; exact n6, ?_⟩, hadj⟩
+          · rw [f2, n2, hout, hs1.2.1]
+          · rcases n1 with ⟨a1, a2, a3⟩ | ⟨ds, d1, d2⟩
+            · left
+              refine ⟨by rw [f1, f2]; exact a2, by rw [f1, f3]; exact a3, a, a1, by rw [f1]; rfl⟩
+            · right
+              exact ⟨ds, _, a, d1, d2, by rw [f1]; rfl⟩
+          · intro x hx
+            rw [hctx] at hx
+            obtain ⟨x1, x2, _⟩ := n7 x hx
+            exact ⟨by rw [f2]; exact x1, by rw [f3]; exact x2⟩
       · intro s more hs
         simp at hs
-        simp [← hs.1]
+        rw [← hs.1]; exact hs1
 
 /-- the fuel of the executable loop is never the reason it stops: once `fuel` covers the 65 − k
     calls the `len(partialSuccess)+len(tried) > 64` guard still allows, more fuel changes nothing -/
@@ -147,13 +212,15 @@ theorem mainLoop_fuel (cfg : Cfg) (sa : Option String) :
   | zero => intro st m script segs h1 h2; omega
   | succ fuel ih =>
     intro st m script segs h1 h2
-    rw [mainLoop, mainLoop]
-    cases ha : afterAuth cfg st (nameOf m) (callAuth cfg sa m script) with
+    rw [mainLoop_succ, mainLoop_succ]
+    cases ha : (afterAuth cfg { st with pkCalls := (callAuth cfg sa m script st.pkCalls).2.1 } (nameOf m)
+        (callAuth cfg sa m script st.pkCalls).1).next with
     | inl res => rfl
     | inr p =>
       obtain ⟨st', a⟩ := p
-      obtain ⟨_, _, _, _, n5, n6, _⟩ := afterAuth_next ha
-      exact ih st' (some a) _ _ n6 (by omega)
+      obtain ⟨_, _, n3, n4, _⟩ := afterAuth_next ha
+      simp only [] at n3 n4
+      exact ih st' (some a) _ _ n4 (by omega)
 
 theorem mainLoop_len (cfg : Cfg) (sa : Option String) :
     ∀ (fuel : Nat) (st : LoopSt) (m : Option Method) (script : List Srv) (segs : List Seg),
@@ -164,14 +231,15 @@ theorem mainLoop_len (cfg : Cfg) (sa : Option String) :
   | zero => intro st m script segs h1; simp [mainLoop]; omega
   | succ fuel ih =>
     intro st m script segs h1
-    rw [mainLoop]
-    cases ha : afterAuth cfg st (nameOf m) (callAuth cfg sa m script) with
+    rw [mainLoop_succ]
+    cases ha : (afterAuth cfg { st with pkCalls := (callAuth cfg sa m script st.pkCalls).2.1 } (nameOf m)
+        (callAuth cfg sa m script st.pkCalls).1).next with
     | inl res => simp; omega
     | inr p =>
       obtain ⟨st', a⟩ := p
-      obtain ⟨_, _, _, _, n5, n6, _⟩ := afterAuth_next ha
-      have := ih st' (some a) (callAuth cfg sa m script).rest
-        (segs ++ [⟨nameOf m, st.lastMethods, st.tried, callAuth cfg sa m script⟩]) n6
+      obtain ⟨_, _, n3, n4, _⟩ := afterAuth_next ha
+      simp only [] at n3 n4
+      have := ih st' (some a) (callAuth cfg sa m script st.pkCalls).1.rest (segs ++ [segOf cfg sa st m script]) n4
       simp at this ⊢
       omega
 
@@ -189,13 +257,16 @@ theorem mainLoop_result (cfg : Cfg) (sa : Option String) :
     simp
   | succ fuel ih =>
     intro st m script segs out res h
-    rw [mainLoop] at h
-    generalize hr : callAuth cfg sa m script = r at h
-    cases ha : afterAuth cfg st (nameOf m) r with
+    rw [mainLoop_succ] at h
+    have hout : (segOf cfg sa st m script).out = (callAuth cfg sa m script st.pkCalls).1 := rfl
+    generalize hseg : segOf cfg sa st m script = seg at h hout
+    generalize hr : (callAuth cfg sa m script st.pkCalls).1 = r at h hout
+    generalize hst : ({ st with pkCalls := (callAuth cfg sa m script st.pkCalls).2.1 } : LoopSt) = stp at h
+    cases ha : (afterAuth cfg stp (nameOf m) r).next with
     | inl res' =>
       simp [ha] at h
       obtain ⟨rfl, rfl⟩ := h
-      simp
+      simp [hout]
       unfold afterAuth at ha
       by_cases hd : r.err = some .disconnect
       · simp [hd] at ha; simp [← ha, hd]
@@ -203,6 +274,7 @@ theorem mainLoop_result (cfg : Cfg) (sa : Option String) :
       · simp [hd, hs] at ha; simp [← ha, hs, hd]
       · simp only [beq_iff_eq, hd, hs, if_false] at ha
         have : res' = .err := by
+          unfold pickNext at ha
           (repeat' split at ha) <;> simp at ha <;> exact ha.symm
         simp [this, hs]
     | inr p =>
@@ -217,14 +289,107 @@ theorem mainLoop_result (cfg : Cfg) (sa : Option String) :
       · rintro ⟨last, h1, _, h3, h4⟩
         refine ⟨last, h1, ?_, h3, h4⟩
         intro heq
-        obtain ⟨_, _, _, _, _, _, n7, n8⟩ := afterAuth_next ha
+        obtain ⟨_, _, _, _, n5, _⟩ := afterAuth_next ha
         rw [heq] at h1
         simp at h1
         subst h1
+        rw [hout] at h3
         unfold effRes at h3
         cases he : r.err with
         | some e => simp [he] at h3
-        | none => simp [he] at h3; exact n7 ⟨h3, he⟩
+        | none => simp [he] at h3; exact n5 ⟨h3, he⟩
+
+/-! ## RetryableAuthMethod: the number of base `auth` calls -/
+
+theorem retryIter_calls (cfg : Cfg) (sa : Option String) (b : Base) :
+    ∀ (fuel : Nat) (script : List Srv) (pk : Nat) (evs : List Ev) (calls : Nat),
+      (retryIter cfg sa b fuel script pk evs calls).2.2 ≤ calls + fuel := by
+  intro fuel
+  induction fuel with
+  | zero => intro script pk evs calls; simp [retryIter]
+  | succ k ih =>
+    intro script pk evs calls
+    unfold retryIter
+    simp only []
+    split
+    · simp
+    · have := ih (runBase cfg sa b script pk).1.rest (runBase cfg sa b script pk).2
+        (evs ++ (runBase cfg sa b script pk).1.evs) (calls + 1)
+      omega
+
+/-- the documented bound: a method makes one base call, RetryableAuthMethod(m, n) with n > 0 at most
+    n, and with n <= 0 at most one per packet the server still sends (plus one) -/
+def Method.bound (m : Method) (scriptLen : Nat) : Nat :=
+  match m.retry with
+  | none => 1
+  | some n => retryFuel n (List.replicate scriptLen Srv.banner)
+
+theorem runMethod_calls (cfg : Cfg) (sa : Option String) (m : Method) (script : List Srv) (pk : Nat) :
+    (runMethod cfg sa m script pk).2.2 ≤ m.bound script.length := by
+  unfold runMethod Method.bound
+  cases m.retry with
+  | none => simp
+  | some n =>
+    simp only []
+    have := retryIter_calls cfg sa m.base (retryFuel n script) script pk [] 0
+    have hf : retryFuel n (List.replicate script.length Srv.banner) = retryFuel n script := by
+      simp [retryFuel]
+    omega
+
+/-- every method the loop can ever call: the configured ones and those AuthCallback may return -/
+def allMethods (cfg : Cfg) : List Method :=
+  cfg.auth ++ (cfg.authCb.getD []).filterMap fun d => match d with
+    | .use m => some m
+    | _ => none
+
+/-- no retry wrapper, or a positive retry count of at most R -/
+def PosBound (R : Nat) (m : Method) : Prop :=
+  m.retry = none ∨ ∃ n : Int, m.retry = some n ∧ 0 < n ∧ n.toNat ≤ R
+
+theorem PosBound.calls {R : Nat} {m : Method} (h : PosBound R m) (L : Nat) : m.bound L ≤ max 1 R := by
+  unfold Method.bound
+  rcases h with h | ⟨n, h, hn, hR⟩
+  · simp only [h]; omega
+  · simp only [h, retryFuel, hn, if_true]; omega
+
+theorem mainLoop_calls (cfg : Cfg) (sa : Option String) (R : Nat) (hall : ∀ m ∈ allMethods cfg, PosBound R m) :
+    ∀ (fuel : Nat) (st : LoopSt) (m : Option Method) (script : List Srv) (segs : List Seg),
+    (∀ a, m = some a → a ∈ allMethods cfg) → (∀ s ∈ segs, s.calls ≤ max 1 R) →
+    ∀ s ∈ (mainLoop cfg sa fuel st m script segs).1, s.calls ≤ max 1 R := by
+  intro fuel
+  induction fuel with
+  | zero => intro st m script segs _ h; simpa [mainLoop] using h
+  | succ fuel ih =>
+    intro st m script segs hm h
+    rw [mainLoop_succ]
+    have hnew : ∀ s ∈ segs ++ [segOf cfg sa st m script], s.calls ≤ max 1 R := by
+      intro s hs
+      simp at hs
+      rcases hs with hs | rfl
+      · exact h s hs
+      · show (callAuth cfg sa m script st.pkCalls).2.2 ≤ max 1 R
+        unfold callAuth
+        cases m with
+        | none => simp only []; omega
+        | some a =>
+          exact Nat.le_trans (runMethod_calls cfg sa a script st.pkCalls) ((hall a (hm a rfl)).calls _)
+    cases ha : (afterAuth cfg { st with pkCalls := (callAuth cfg sa m script st.pkCalls).2.1 } (nameOf m)
+        (callAuth cfg sa m script st.pkCalls).1).next with
+    | inl res => exact hnew
+    | inr p =>
+      obtain ⟨st', a⟩ := p
+      refine ih st' (some a) _ _ ?_ hnew
+      intro a' ha'
+      simp at ha'
+      subst ha'
+      obtain ⟨n1, _⟩ := afterAuth_next ha
+      rcases n1 with ⟨a1, _, _⟩ | ⟨ds, d1, d2⟩
+      · simp [allMethods, a1]
+      · simp only [allMethods, List.mem_append, List.mem_filterMap]
+        right
+        refine ⟨.use a, ?_, rfl⟩
+        rw [d1]
+        exact List.mem_of_getElem? d2
 
 /-! ## clientAuthenticate -/
 
@@ -269,6 +434,20 @@ theorem attempts_bounded (cfg : Cfg) (script : List Srv) : (run cfg script).segs
   · rw [h]
     have := mainLoop_len cfg sa 66 {} none rest [] (by simp)
     simpa using this
+
+/-- **attempts_bounded, retries included.** If every method the loop can call (configured or handed
+    out by AuthCallback) is plain or RetryableAuthMethod with 0 < maxTries ≤ R, then every one of the
+    at most 65 loop iterations makes at most max(1, R) base `auth` calls — at most 65·max(1, R)
+    authentication requests in total, whatever the server does.  (For maxTries ≤ 0 the code retries
+    for as long as the server answers: `runMethod_calls` bounds it by the packets left.) -/
+theorem attempts_bounded_with_retries (cfg : Cfg) (script : List Srv) (R : Nat)
+    (hall : ∀ m ∈ allMethods cfg, PosBound R m) :
+    (run cfg script).segs.length ≤ 65 ∧ ∀ s ∈ (run cfg script).segs, s.calls ≤ max 1 R := by
+  refine ⟨attempts_bounded cfg script, ?_⟩
+  rcases run_cases cfg script with ⟨h, _⟩ | ⟨sa, rest, h, _⟩
+  · rw [h]; simp
+  · rw [h]
+    exact mainLoop_calls cfg sa R hall 66 {} none rest [] (by simp) (by simp)
 
 /-- … and that bound is the code's own guard, not the fuel of the executable model -/
 theorem fuel_irrelevant (cfg : Cfg) (sa : Option String) (script : List Srv) (n : Nat) :
@@ -399,11 +578,6 @@ example : pickFrom ⟨1, "ssh-ed25519", .plain⟩ (some ["rsa-sha2-256"]) = some
 
 /-! ## signatures only for keys the server accepted in a query -/
 
-theorem G_append {a b : List Ev} (ha : G a) (hb : G b) : G (a ++ b) := by
-  intro p
-  rw [guarded_append, ha p, hb _]
-  rfl
-
 theorem mainLoop_G (cfg : Cfg) (sa : Option String) :
     ∀ (fuel : Nat) (st : LoopSt) (m : Option Method) (script : List Srv) (segs : List Seg),
     (∀ s ∈ segs, G s.out.evs) → ∀ s ∈ (mainLoop cfg sa fuel st m script segs).1, G s.out.evs := by
@@ -412,14 +586,15 @@ theorem mainLoop_G (cfg : Cfg) (sa : Option String) :
   | zero => intro st m script segs h; simpa [mainLoop] using h
   | succ fuel ih =>
     intro st m script segs h
-    rw [mainLoop]
-    have hnew : ∀ s ∈ segs ++ [⟨nameOf m, st.lastMethods, st.tried, callAuth cfg sa m script⟩], G s.out.evs := by
+    rw [mainLoop_succ]
+    have hnew : ∀ s ∈ segs ++ [segOf cfg sa st m script], G s.out.evs := by
       intro s hs
       simp at hs
       rcases hs with hs | rfl
       · exact h s hs
-      · exact callAuth_G cfg sa m script
-    cases afterAuth cfg st (nameOf m) (callAuth cfg sa m script) with
+      · exact callAuth_G cfg sa m script st.pkCalls
+    cases (afterAuth cfg { st with pkCalls := (callAuth cfg sa m script st.pkCalls).2.1 } (nameOf m)
+        (callAuth cfg sa m script st.pkCalls).1).next with
     | inl res => exact hnew
     | inr p => exact ih _ _ _ _ hnew
 
